@@ -45,8 +45,10 @@ def gen_genome(rng, k, prefix: bytes):
 			n = rng.choice([0, 1, len(P) + k - 1, len(P) + k, max(k - 1, 1), max(k - 2, 1), k // 2 + 1, len(P)])   # incl. shorter than k, shorter than prefix+k
 		elif lc < 0.8:
 			n = rng.randint(30, 400)
-		else:
+		elif lc < 0.996:
 			n = rng.randint(400, 5000)
+		else:
+			n = rng.randint(40_000, 90_000)    # a long contig (read / parse buffers, many matches)
 		alpha = rng.choice([b'ACGT', b'ACGT', b'ACGTN', b'ACGTRYKMSWN'])
 		s = bytearray(rng.choice(alpha) for _ in range(n))
 		if rng.random() < 0.3 and n > 20:
